@@ -522,6 +522,14 @@ func (s *SQLiteStore) streamBatch(
 		}
 	}
 
+	// Next returns false on an iteration error as well as at the end of the data
+	if err := rows.Err(); err != nil {
+		rows.Close() // Best effort close, iteration error takes precedence
+		*iterErr = fmt.Errorf("sqlite: iterate events: %w", err)
+		yield(nil, *iterErr)
+		return batchCount, lastPos, false
+	}
+
 	if err := rows.Close(); err != nil {
 		*iterErr = fmt.Errorf("sqlite: close rows: %w", err)
 		yield(nil, *iterErr)
